@@ -1116,6 +1116,7 @@ func init() {
 		shapes := []string{"copy-samepointers", "copy-renumbered", "copy-shifted", "disjoint", "clashing", "copy-samepointers", "copy-renumbered",
 			"empty-both", "empty-left", "empty-right"}
 		n := c.N(2500, 40000)
+		c10Roles(c)
 		{
 			l, r, _ := c10Pair(c.R, "witness", 2)
 			c10Run(c, l, r, "witness", "library", 0)
